@@ -144,8 +144,8 @@ def mergeAncillaries (t : Tables) (g : Graph) (anc : Graph) (ctx : Ctx) : Graph 
   anc.flatten.foldl (fun g node =>
     if isMergeable t g ctx node then pushAt g node.endAt (reindex node) else g) g
 
-/-- `complete_virtual_nodes` (non-empty input): a virtual tail after every occupied position, scanning
-right to left. -/
+/-- `complete_virtual_nodes`: a virtual tail after every occupied position, scanning right to left
+(nothing to do for the empty input). -/
 def completeVirtual (g : Graph) (input : Str) : Graph :=
   let n := input.length
   (List.range (n - 1)).reverse.foldl (fun g i =>
@@ -153,9 +153,8 @@ def completeVirtual (g : Graph) (input : Str) : Graph :=
     | some (_ :: _) => pushAt g (n - 1) fun idx => .virt (n - 1) idx (input.drop (i + 1)) (some 0)
     | _ => g) g
 
-/-- `Graph::from_input`; `none` = panic on the empty input. -/
+/-- `Graph::from_input` (total: the empty input gives the empty lattice). -/
 def fromInput (t : Tables) (input : Str) (d : Dict) (ctx : Ctx) : Option Graph :=
-  if input = [] then none else
   let anc := findAncillary input d
   let g := findWordOnlyFirst (List.replicate input.length []) input d
   let g := findWordAfterPrefix g input d anc
@@ -305,7 +304,7 @@ def search (t : Tables) (ctx : Ctx) (f : Freq) (g : Graph) (n : Nat) :
 def nBest (t : Tables) (ctx : Ctx) (f : Freq) (g : Graph) (n fuel : Nat) : List Cand :=
   search t ctx f g n fuel (heapPush #[] { chain := [.eos], score := 0, priority := 0 }) [] []
 
-/-- `kkc::get_candidates`; `none` = panic (empty input). -/
+/-- `kkc::get_candidates`. -/
 def getCandidates (t : Tables) (input : Str) (d : Dict) (ctx : Ctx) (f : Freq) (n fuel : Nat) : Option (List Cand) :=
   (fromInput t input d ctx).map fun g => nBest t ctx f (forwardDp t ctx f g) n fuel
 
@@ -335,6 +334,7 @@ def asIndependent : Node → Option (Str × Str)
 def withAffix (chain : List Node) : Option (Str × Str) :=
   match chain with
   | [] => none
+  | .bos :: rest => withAffix rest      -- the sentence-begin node of a search result is skipped
   | cur :: rest =>
     let next := rest.head?.filter isWordNode
     let nextToNext := (rest.drop 1).head?.filter isWordNode
